@@ -53,7 +53,7 @@ theorem TreeWF_same {U : List Block} {c c' : Chain} (w : TreeWF U c) (hr : c'.ro
     cases h0 : alookup k c'.store with
     | none => rw [h0] at this; cases this
     | some s => rw [h0] at this; exact ⟨s, rfl, by simpa using this⟩
-  refine ⟨?_, ?_, ?_, ?_, ?_⟩
+  refine ⟨?_, ?_, ?_, ?_, ?_, ?_, ?_⟩
   · obtain ⟨r, h1, h2⟩ := w.root
     exact ⟨r, by rw [hr, hg]; exact h1, h2⟩
   · intro x n hn hx
@@ -66,9 +66,23 @@ theorem TreeWF_same {U : List Block} {c c' : Chain} (w : TreeWF U c) (hr : c'.ro
     exact ⟨by rw [hr]; exact h1, n, by rw [hg]; exact h2, h3⟩
   · intro x n hn hx
     rw [hg] at hn; rw [hr] at hx
-    obtain ⟨b, hb, h1, h2, h3, h4, s0, h5, h6⟩ := w.blk x n hn hx
+    obtain ⟨b, hb, h1, h2, h3, hd⟩ := w.blk x n hn hx
+    refine ⟨b, hb, h1, h2, h3, fun htc => ?_⟩
+    obtain ⟨h4, s0, h5, h6⟩ := hd htc
     obtain ⟨s, h7, h8⟩ := hsome' x s0 h5
-    exact ⟨b, hb, h1, h2, h3, h4, s, h7, h8.trans h6⟩
+    exact ⟨h4, s, h7, h8.trans h6⟩
+  · intro x n hn h0
+    rw [hg] at hn
+    have h1 := w.hdr x n hn h0
+    have := hs x
+    rw [h1] at this
+    cases h2 : alookup x c'.store with
+    | none => rfl
+    | some s => rw [h2] at this; cases this
+  · intro x n hn hx htc
+    rw [hg] at hn; rw [hr] at hx
+    obtain ⟨p, h1, h2⟩ := w.anc x n hn hx htc
+    exact ⟨p, by rw [hg]; exact h1, by unfold HasData at h2 ⊢; rw [hr]; exact h2⟩
   · intro k s h
     obtain ⟨s0, h0, _⟩ := hsome k s h
     obtain ⟨h1, h2⟩ := w.store k s0 h0
@@ -77,15 +91,21 @@ theorem TreeWF_same {U : List Block} {c c' : Chain} (w : TreeWF U c) (hr : c'.ro
 /-- **a delivered block enters the tree** (AcceptHeader + the TxCount / block-store bookkeeping of CommitBlock): if `b ∈ U`
     is new, its parent `p` is in the tree, and `c'` shows the tree of `c` with the new leaf `nb` under `p` and the block
     stored, then `c'` is well-formed. -/
-theorem TreeWF_delivered {U : List Block} {c c' : Chain} (w : TreeWF U c) (b : Block) (hbU : b ∈ U) (p nb : Node)
+theorem TreeWF_linked {U : List Block} {c c' : Chain} (w : TreeWF U c) (b : Block) (hbU : b ∈ U) (p nb : Node)
     (hnew : getNode c b.id = none) (hp : getNode c b.parent = some p)
-    (hnb : nb.parent = b.parent ∧ nb.height = p.height + 1 ∧ nb.bits = b.bits ∧ nb.txCount = b.txs.length ∧ nb.childs = [])
+    (hnb : nb.parent = b.parent ∧ nb.height = p.height + 1 ∧ nb.bits = b.bits ∧ nb.childs = [])
+    (hdat : nb.txCount = 0 ∨ (nb.txCount = b.txs.length ∧ b.txs ≠ [] ∧ HasData c b.parent p))
     (hr : c'.root = c.root)
     (hg : ∀ x, getNode c' x = if x = b.id then some nb else if x = b.parent then some { p with childs := p.childs ++ [b.id] }
       else getNode c x)
-    (hs : ∀ k, (alookup k c'.store).map (·.txs) = if k = b.id then some b.txs else (alookup k c.store).map (·.txs)) :
+    (hs : ∀ k, (alookup k c'.store).map (·.txs) =
+      if k = b.id ∧ nb.txCount ≠ 0 then some b.txs else (alookup k c.store).map (·.txs)) :
     TreeWF U c' := by
-  obtain ⟨hnb1, hnb2, hnb3, hnb4, hnb5⟩ := hnb
+  obtain ⟨hnb1, hnb2, hnb3, hnb5⟩ := hnb
+  have hnsC : alookup b.id c.store = none := by
+    cases hh : alookup b.id c.store with
+    | none => rfl
+    | some s0 => have := (w.store _ _ hh).2; rw [hnew] at this; cases this
   have hpb : b.parent ≠ b.id := by intro e; rw [e, hnew] at hp; cases hp
   have inC : ∀ {x n}, getNode c x = some n → x ≠ b.id := by
     intro x n h e; rw [e, hnew] at h; cases h
@@ -116,11 +136,11 @@ theorem TreeWF_delivered {U : List Block} {c c' : Chain} (w : TreeWF U c) (b : B
   have hsOld : ∀ k, k ≠ b.id → ∀ s0, alookup k c.store = some s0 → ∃ s, alookup k c'.store = some s ∧ s.txs = s0.txs := by
     intro k hk s0 h
     have := hs k
-    rw [if_neg hk, h] at this
+    rw [if_neg (fun e => hk e.1), h] at this
     cases h0 : alookup k c'.store with
     | none => rw [h0] at this; cases this
     | some s => rw [h0] at this; exact ⟨s, rfl, by simpa using this⟩
-  refine ⟨?_, ?_, ?_, ?_, ?_⟩
+  refine ⟨?_, ?_, ?_, ?_, ?_, ?_, ?_⟩
   · obtain ⟨r, h1, h2, h3⟩ := w.root
     obtain ⟨r', g1, _, g2, g3, _⟩ := old _ _ h1
     exact ⟨r', by rw [hr]; exact g1, by rw [g2]; exact h2, by rw [g3]; exact h3⟩
@@ -159,23 +179,60 @@ theorem TreeWF_delivered {U : List Block} {c c' : Chain} (w : TreeWF U c) (b : B
     rw [hr] at hx
     by_cases hxb : x = b.id
     · rw [hxb, hgb] at hn; cases hn
+      refine ⟨b, hbU, hxb.symm, hnb1.symm, hnb3.symm, fun htc => ?_⟩
+      rcases hdat with h0 | ⟨hnb4, _, _⟩
+      · exact absurd h0 htc
       have := hs b.id
-      rw [if_pos rfl] at this
+      rw [if_pos ⟨rfl, htc⟩] at this
       cases h0 : alookup b.id c'.store with
       | none => rw [h0] at this; cases this
       | some s =>
         rw [h0] at this
-        exact ⟨b, hbU, hxb.symm, hnb1.symm, hnb3.symm, hnb4, s, by rw [hxb]; exact h0, by simpa using this⟩
+        exact ⟨hnb4, s, by rw [hxb]; exact h0, by simpa using this⟩
     · obtain ⟨n, h1, e1, _, e3, e4, _⟩ := back x n' hn hxb
-      obtain ⟨b0, hb0, g1, g2, g3, g4, s0, g5, g6⟩ := w.blk x n h1 hx
+      obtain ⟨b0, hb0, g1, g2, g3, gd⟩ := w.blk x n h1 hx
+      refine ⟨b0, hb0, g1, by rw [e1]; exact g2, by rw [e3]; exact g3, fun htc => ?_⟩
+      obtain ⟨g4, s0, g5, g6⟩ := gd (by rw [← e4]; exact htc)
       obtain ⟨s, g7, g8⟩ := hsOld x hxb s0 g5
-      exact ⟨b0, hb0, g1, by rw [e1]; exact g2, by rw [e3]; exact g3, by rw [e4]; exact g4, s, g7, g8.trans g6⟩
+      exact ⟨by rw [e4]; exact g4, s, g7, g8.trans g6⟩
+  · intro x n' hn h0
+    by_cases hxb : x = b.id
+    · rw [hxb, hgb] at hn; cases hn
+      have := hs b.id
+      rw [if_neg (fun e => e.2 h0), hnsC] at this
+      rw [hxb]
+      cases h1 : alookup b.id c'.store with
+      | none => rfl
+      | some s => rw [h1] at this; cases this
+    · obtain ⟨n, h1, _, _, _, e4, _⟩ := back x n' hn hxb
+      have h2 := w.hdr x n h1 (by rw [← e4]; exact h0)
+      have := hs x
+      rw [if_neg (fun e => hxb e.1), h2] at this
+      cases h3 : alookup x c'.store with
+      | none => rfl
+      | some s => rw [h3] at this; cases this
+  · intro x n' hn hx htc
+    rw [hr] at hx
+    by_cases hxb : x = b.id
+    · rw [hxb, hgb] at hn; cases hn
+      rcases hdat with h0 | ⟨_, _, hpd⟩
+      · exact absurd h0 htc
+      obtain ⟨p', g1, _, _, _, g5, _⟩ := old _ _ hp
+      refine ⟨p', by rw [hnb1]; exact g1, ?_⟩
+      unfold HasData at hpd ⊢
+      rw [hnb1, hr, g5]; exact hpd
+    · obtain ⟨n, h1, e1, _, _, e4, _⟩ := back x n' hn hxb
+      obtain ⟨q, h2, h3⟩ := w.anc x n h1 hx (by rw [← e4]; exact htc)
+      obtain ⟨q', g1, _, _, _, g5, _⟩ := old _ _ h2
+      refine ⟨q', by rw [e1]; exact g1, ?_⟩
+      unfold HasData at h3 ⊢
+      rw [e1, hr, g5]; exact h3
   · intro k s h
     by_cases hkb : k = b.id
     · rw [hkb, hr]
       exact ⟨fun e => hrootC e.symm, by rw [hgb]; rfl⟩
     · have := hs k
-      rw [if_neg hkb, h] at this
+      rw [if_neg (fun e => hkb e.1), h] at this
       cases h0 : alookup k c.store with
       | none => rw [h0] at this; cases this
       | some s0 =>
@@ -184,6 +241,148 @@ theorem TreeWF_delivered {U : List Block} {c c' : Chain} (w : TreeWF U c) (b : B
         | none => rw [h3] at h2; cases h2
         | some n =>
           obtain ⟨n', g1, _⟩ := old _ _ h3
+          exact ⟨by rw [hr]; exact h1, by rw [g1]; rfl⟩
+
+
+/-- **a delivered block enters the tree** (AcceptHeader + the TxCount / block-store bookkeeping of CommitBlock): if `b ∈ U`
+    is new and not empty, its parent `p` is in the tree and has its data, and `c'` shows the tree of `c` with the new leaf
+    `nb` under `p` and the block stored, then `c'` is well-formed. -/
+theorem TreeWF_delivered {U : List Block} {c c' : Chain} (w : TreeWF U c) (b : Block) (hbU : b ∈ U) (p nb : Node)
+    (hnew : getNode c b.id = none) (hp : getNode c b.parent = some p)
+    (hnb : nb.parent = b.parent ∧ nb.height = p.height + 1 ∧ nb.bits = b.bits ∧ nb.txCount = b.txs.length ∧ nb.childs = [])
+    (hne : b.txs ≠ []) (hpd : HasData c b.parent p)
+    (hr : c'.root = c.root)
+    (hg : ∀ x, getNode c' x = if x = b.id then some nb else if x = b.parent then some { p with childs := p.childs ++ [b.id] }
+      else getNode c x)
+    (hs : ∀ k, (alookup k c'.store).map (·.txs) = if k = b.id then some b.txs else (alookup k c.store).map (·.txs)) :
+    TreeWF U c' := by
+  obtain ⟨h1, h2, h3, h4, h5⟩ := hnb
+  have htc : nb.txCount ≠ 0 := by
+    rw [h4]; intro h0; exact hne (List.eq_nil_of_length_eq_zero h0)
+  refine TreeWF_linked w b hbU p nb hnew hp ⟨h1, h2, h3, h5⟩ (Or.inr ⟨h4, hne, hpd⟩) hr hg ?_
+  intro k
+  rw [hs k]
+  by_cases hk : k = b.id
+  · simp [hk, htc]
+  · simp [hk]
+
+/-- **a header alone enters the tree** (AcceptHeader for a header without data): a node with `txCount = 0`, nothing stored -/
+theorem TreeWF_header {U : List Block} {c c' : Chain} (w : TreeWF U c) (b : Block) (hbU : b ∈ U) (p nb : Node)
+    (hnew : getNode c b.id = none) (hp : getNode c b.parent = some p)
+    (hnb : nb.parent = b.parent ∧ nb.height = p.height + 1 ∧ nb.bits = b.bits ∧ nb.txCount = 0 ∧ nb.childs = [])
+    (hr : c'.root = c.root)
+    (hg : ∀ x, getNode c' x = if x = b.id then some nb else if x = b.parent then some { p with childs := p.childs ++ [b.id] }
+      else getNode c x)
+    (hs : c'.store = c.store) : TreeWF U c' := by
+  obtain ⟨h1, h2, h3, h4, h5⟩ := hnb
+  refine TreeWF_linked w b hbU p nb hnew hp ⟨h1, h2, h3, h5⟩ (Or.inl h4) hr hg ?_
+  intro k
+  rw [hs]
+  simp [h4]
+
+/-- **the block of a known header arrives** (`cur.TxCount = …` + the block-store bookkeeping of CommitBlock on an
+    existing node): the node `n` of `b` had no data, its parent has; `c'` shows the same tree with the transaction count
+    set and the block stored. -/
+theorem TreeWF_filled {U : List Block} {c c' : Chain} (w : TreeWF U c) (hU : BlockTree c.root U) (b : Block) (hbU : b ∈ U)
+    (n : Node) (hn : getNode c b.id = some n) (hbr : b.id ≠ c.root)
+    (hpd : ∃ p, getNode c n.parent = some p ∧ HasData c n.parent p)
+    (hr : c'.root = c.root)
+    (hg : ∀ x, getNode c' x = if x = b.id then some { n with txCount := b.txs.length } else getNode c x)
+    (hs : ∀ k, (alookup k c'.store).map (·.txs) = if k = b.id then some b.txs else (alookup k c.store).map (·.txs)) :
+    TreeWF U c' := by
+  have hlen : b.txs.length ≠ 0 := fun h0 => hU.txs b hbU (List.eq_nil_of_length_eq_zero h0)
+  have hgb : getNode c' b.id = some { n with txCount := b.txs.length } := by rw [hg, if_pos rfl]
+  -- every node of c has a counterpart in c' with the same parent / height / bits / childs and at least its data
+  have old : ∀ x m, getNode c x = some m → ∃ m', getNode c' x = some m' ∧ m'.parent = m.parent ∧ m'.height = m.height ∧
+      m'.bits = m.bits ∧ m'.childs = m.childs ∧ (x ≠ b.id → m'.txCount = m.txCount) ∧ (m.txCount ≠ 0 → m'.txCount ≠ 0) := by
+    intro x m h
+    by_cases hx : x = b.id
+    · rw [hx, hn] at h; cases h
+      exact ⟨{ n with txCount := b.txs.length }, by rw [hx]; exact hgb, rfl, rfl, rfl, rfl, fun e => absurd hx e, fun _ => hlen⟩
+    · exact ⟨m, by rw [hg, if_neg hx]; exact h, rfl, rfl, rfl, rfl, fun _ => rfl, fun e => e⟩
+  have back : ∀ x m', getNode c' x = some m' → ∃ m, getNode c x = some m ∧ m'.parent = m.parent ∧ m'.height = m.height ∧
+      m'.bits = m.bits ∧ m'.childs = m.childs ∧ (x ≠ b.id → m'.txCount = m.txCount) := by
+    intro x m' h
+    by_cases hx : x = b.id
+    · rw [hx, hgb] at h; cases h
+      exact ⟨n, by rw [hx]; exact hn, rfl, rfl, rfl, rfl, fun e => absurd hx e⟩
+    · rw [hg, if_neg hx] at h; exact ⟨m', h, rfl, rfl, rfl, rfl, fun _ => rfl⟩
+  have hsOld : ∀ k, k ≠ b.id → ∀ s0, alookup k c.store = some s0 → ∃ s, alookup k c'.store = some s ∧ s.txs = s0.txs := by
+    intro k hk s0 h
+    have := hs k
+    rw [if_neg hk, h] at this
+    cases h0 : alookup k c'.store with
+    | none => rw [h0] at this; cases this
+    | some s => rw [h0] at this; exact ⟨s, rfl, by simpa using this⟩
+  refine ⟨?_, ?_, ?_, ?_, ?_, ?_, ?_⟩
+  · obtain ⟨r, h1, h2, h3⟩ := w.root
+    obtain ⟨r', g1, _, g2, g3, _⟩ := old _ _ h1
+    exact ⟨r', by rw [hr]; exact g1, by rw [g2]; exact h2, by rw [g3]; exact h3⟩
+  · intro x m' hm hx
+    rw [hr] at hx
+    obtain ⟨m, h1, e1, e2, _, _, _⟩ := back x m' hm
+    obtain ⟨q, h2, h3, h4⟩ := w.par x m h1 hx
+    obtain ⟨q', g1, _, g2, _, g4, _⟩ := old _ _ h2
+    exact ⟨q', by rw [e1]; exact g1, by rw [e2, g2]; exact h3, by rw [g4]; exact h4⟩
+  · intro y q' hq x hx
+    obtain ⟨q, h1, _, _, _, e4, _⟩ := back y q' hq
+    obtain ⟨h3, m, h4, h5⟩ := w.childs y q h1 x (by rw [← e4]; exact hx)
+    obtain ⟨m', g1, g2, _⟩ := old _ _ h4
+    exact ⟨by rw [hr]; exact h3, m', g1, g2.trans h5⟩
+  · intro x m' hm hx
+    rw [hr] at hx
+    obtain ⟨m, h1, e1, _, e3, _, e5⟩ := back x m' hm
+    obtain ⟨b0, hb0, g1, g2, g3, gd⟩ := w.blk x m h1 hx
+    by_cases hxb : x = b.id
+    · rw [hxb, hgb] at hm; cases hm
+      have hbb : b0 = b := hU.ids b0 hb0 b hbU (g1.trans hxb)
+      subst hbb
+      refine ⟨b0, hb0, g1, by rw [e1]; exact g2, by rw [e3]; exact g3, fun _ => ⟨rfl, ?_⟩⟩
+      have := hs b0.id
+      rw [if_pos rfl] at this
+      cases h0 : alookup b0.id c'.store with
+      | none => rw [h0] at this; cases this
+      | some s => rw [h0] at this; exact ⟨s, by rw [hxb]; exact h0, by simpa using this⟩
+    · refine ⟨b0, hb0, g1, by rw [e1]; exact g2, by rw [e3]; exact g3, fun htc => ?_⟩
+      obtain ⟨g4, s0, g5, g6⟩ := gd (by rw [← e5 hxb]; exact htc)
+      obtain ⟨s, g7, g8⟩ := hsOld x hxb s0 g5
+      exact ⟨by rw [e5 hxb]; exact g4, s, g7, g8.trans g6⟩
+  · intro x m' hm h0
+    obtain ⟨m, h1, _, _, _, _, e5⟩ := back x m' hm
+    by_cases hxb : x = b.id
+    · rw [hxb, hgb] at hm; cases hm; exact absurd h0 hlen
+    · have h2 := w.hdr x m h1 (by rw [← e5 hxb]; exact h0)
+      have := hs x
+      rw [if_neg hxb, h2] at this
+      cases h3 : alookup x c'.store with
+      | none => rfl
+      | some s => rw [h3] at this; cases this
+  · intro x m' hm hx htc
+    rw [hr] at hx
+    obtain ⟨m, h1, e1, _, _, _, e5⟩ := back x m' hm
+    have hpar : ∃ q, getNode c m.parent = some q ∧ HasData c m.parent q := by
+      by_cases hxb : x = b.id
+      · rw [hxb, hn] at h1; cases h1; exact hpd
+      · exact w.anc x m h1 hx (by rw [← e5 hxb]; exact htc)
+    obtain ⟨q, h2, h3⟩ := hpar
+    obtain ⟨q', g1, _, _, _, _, _, g7⟩ := old _ _ h2
+    refine ⟨q', by rw [e1]; exact g1, ?_⟩
+    unfold HasData at h3 ⊢
+    rw [e1, hr]
+    exact h3.imp id g7
+  · intro k s h
+    by_cases hkb : k = b.id
+    · rw [hkb, hr]; exact ⟨hbr, by rw [hgb]; rfl⟩
+    · have := hs k
+      rw [if_neg hkb, h] at this
+      cases h0 : alookup k c.store with
+      | none => rw [h0] at this; cases this
+      | some s0 =>
+        obtain ⟨h1, h2⟩ := w.store k s0 h0
+        cases h3 : getNode c k with
+        | none => rw [h3] at h2; cases h2
+        | some m =>
+          obtain ⟨m', g1, _⟩ := old _ _ h3
           exact ⟨by rw [hr]; exact h1, by rw [g1]; rfl⟩
 
 end GocoinV.ChainTree
